@@ -20,6 +20,14 @@ def num_plain(n, d):
     return s
 
 
+def dec(v):
+    """A float as a plain decimal literal (the language has no exponent notation): the shortest
+    decimal that reads back as the same float, written positionally."""
+    from decimal import Decimal
+    s = format(Decimal(repr(float(v))), "f")
+    return s
+
+
 def expr(t, spell=None, logic=False):
     """spell: None = plain; else a function (n, d) -> text for constants.
     logic=True: the tree sits in a logic operand position, where the text language wants
@@ -28,7 +36,7 @@ def expr(t, spell=None, logic=False):
     if op == "num":
         if "f" in t:
             v = t["f"]
-            return repr(v) if v >= 0 else f"(-{repr(-v)})"
+            return dec(v) if v >= 0 else f"(-{dec(-v)})"
         if t["d"] == 0:
             return "Infinity" if t["n"] > 0 else "MinusInfinity" if t["n"] < 0 else "(Infinity - Infinity)"
         if logic and t["d"] == 1 and t["n"] in (0, 1):
